@@ -77,3 +77,16 @@ pub fn vx_blen(s: &str) -> (r: usize) ensures r == blen(s@) { unimplemented!() }
 /// every character takes at least one byte
 #[verifier::external_body]
 pub proof fn axiom_blen_ge_len(s: Seq<char>) ensures blen(s) >= s.len() {}
+/// `format!("{x}")` of a value: its Display text
+pub uninterp spec fn display(v: Value) -> Seq<char>;
+#[verifier::external_body]
+pub fn vx_display(v: &Value) -> (r: String) ensures r@ == display(*v) { unimplemented!() }
+/// `[String]::join(&str)`: the texts in order with the separator BETWEEN consecutive ones
+pub open spec fn join_spec(ss: Seq<Seq<char>>, sep: Seq<char>) -> Seq<char>
+    decreases ss.len()
+{
+    if ss.len() == 0 { Seq::empty() } else if ss.len() == 1 { ss[0] } else { join_spec(ss.drop_last(), sep) + sep + ss.last() }
+}
+pub open spec fn views(v: Seq<String>) -> Seq<Seq<char>> { Seq::new(v.len(), |i: int| v[i]@) }
+#[verifier::external_body]
+pub fn vx_join_strings(v: &Vec<String>, sep: &str) -> (r: String) ensures r@ == join_spec(views(v@), sep@) { unimplemented!() }
